@@ -27,9 +27,7 @@ unsafe impl<L: Lockable> RawLock for BoxedLockCollection<L> {
 	}
 
 	unsafe fn raw_unlock_write(&self) {
-		for lock in self.locks() {
-			lock.raw_unlock_write();
-		}
+		utils::unlock_all_writes(self.locks())
 	}
 
 	unsafe fn raw_read(&self) {
@@ -41,9 +39,7 @@ unsafe impl<L: Lockable> RawLock for BoxedLockCollection<L> {
 	}
 
 	unsafe fn raw_unlock_read(&self) {
-		for lock in self.locks() {
-			lock.raw_unlock_read();
-		}
+		utils::unlock_all_reads(self.locks())
 	}
 }
 
